@@ -328,3 +328,48 @@ package trace
 //@   at-stmt "continue" requires only-in-memory-parts-are-skipped: pw.mp != nil
 //@   ensures  looked-at-every-part: forall k :: 0 <= k && k < len(snapshot.parts) && snapshot.parts[k].mp == nil ==> hasDiskParts
 //@   loop 0 invariant forall k :: 0 <= k && k < range_i && snapshot.parts[k].mp == nil ==> hasDiskParts
+//
+//@ section C13
+//
+// retainAllVerdict (the fail-open verdict used when no sampler ran, the breaker is open or a sampler failed): every trace of
+// the batch is kept, whether the mask was freshly allocated or a reused (possibly cleared) buffer.
+//@ func retainAllVerdict
+//@   mode int
+//@   requires traceCount >= 0
+//@   modifies mask[0:cap(mask)]
+//@   ensures  keeps-every-trace: len(result.Keep) == traceCount && (forall k :: 0 <= k && k < traceCount ==> result.Keep[k])
+//@   loop 0 invariant len(mask) == traceCount && (forall k :: 0 <= k && k < range_i ==> mask[k])
+//
+//@ section C04
+//
+// loadSnapshot: the secondary-index parts are loaded for the parts the MANIFEST lists (what readSnapshot returned), not for
+// whatever part directories happen to be on disk - an index part without its manifest entry must not be served. Thin.
+//@ func tsTable.readSnapshot
+//@   assumed reads and parses the manifest of the epoch
+//@ func garbageCleaner.removePart
+//@   assumed schedules the part directory for deletion
+//@ func garbageCleaner.registerSnapshot
+//@   assumed garbage collector bookkeeping
+//@ func garbageCleaner.clean
+//@   assumed garbage collector
+//@ func validatePartMetadata
+//@   assumed reads and validates metadata.json of a part directory
+//@   pure
+//@ func partPath
+//@   assumed path formatting
+//@   pure
+//@ func mustOpenFilePart
+//@   assumed opens a part directory
+//@   ensures result != nil && fresh(result)
+//@ func newPartWrapper
+//@   assumed wraps a part
+//@   ensures result != nil && fresh(result)
+//@ func tsTable.loadSidxMap
+//@   assumed opens the secondary-index parts with the given ids
+//@ func tsTable.persistSnapshot
+//@   assumed writes the manifest of the given snapshot
+//@ func tsTable.loadSnapshot#sidx-follows-the-manifest
+//@   mode int
+//@   opt only-stated
+//@   requires tst != nil
+//@   at-call loadSidxMap requires the-ids-are-those-of-the-manifest: samehdr(arg0, parts)
